@@ -57,7 +57,11 @@ def io_document(g):
        identified relations with both endpoints, no floats, no foreign datatypes"""
     r = g.rng
     d = ProvDocument()
+    if g.chance(0.03):
+        return d                     # the empty document (its TriG text is a single line break)
     nss = [d.add_namespace("ex", "http://example.org/"), d.add_namespace("dn", "http://other/ns#")]
+    if g.chance(0.03):
+        return d                     # namespaces only
     if g.chance(0.5):
         nss.append(d.add_namespace("ü", "http://a/b/") if False else d.add_namespace("ex2", "http://a/b/"))
 
@@ -310,7 +314,13 @@ def one_document(ctx, doc, fmts, scratch, fails, model_ops, pending, doc_id):
                 lt = label_of(lambda: ProvDocument.deserialize(source=io.StringIO(t), format="rdf"))
                 if lb != lt:
                     fails.append(Failure("oracle", None, "rdflib reads the text and its UTF-8 bytes differently (hypothesis RdfTextBytes)", case0))
+        # the reference reading: what *any* source kind makes of the returned string (if one source kind alone cannot read it,
+        # that source kind is the odd one out in the grid below, not a reason to skip the document)
         ref_label = label_of(lambda: ProvDocument.deserialize(content=ref_text, format=fmt))
+        if ref_label is None:
+            ref_label = label_of(lambda: ProvDocument.deserialize(source=io.BytesIO(ref_text.encode("utf-8")), format=fmt))
+        if ref_label is None:
+            ref_label = label_of(lambda: ProvDocument.deserialize(source=io.StringIO(ref_text), format=fmt))
         if ref_label is None:
             ctx.count("returned-string-not-readable:" + fmt)
             continue
